@@ -1360,6 +1360,12 @@ def cumprod(x, axis=None, dtype=None, out=None, method="sequential"):
     )
 
 
+def _topk_size(a, k, axis):
+    """Number of elements topk / argtopk return along ``axis``"""
+    n = a.shape[axis]
+    return abs(k) if np.isnan(n) else builtins.min(abs(k), n)
+
+
 def topk(a, k, axis=-1, split_every=None):
     """Extract the k largest elements from a on the given axis,
     and return them sorted from largest to smallest.
@@ -1415,7 +1421,7 @@ def topk(a, k, axis=-1, split_every=None):
         keepdims=True,
         dtype=a.dtype,
         split_every=split_every,
-        output_size=abs(k),
+        output_size=_topk_size(a, k, axis),
     )
 
 
@@ -1486,7 +1492,7 @@ def argtopk(a, k, axis=-1, split_every=None):
         dtype=np.intp,
         split_every=split_every,
         concatenate=False,
-        output_size=abs(k),
+        output_size=_topk_size(a, k, axis),
         meta=meta,
     )
 
